@@ -27,6 +27,12 @@
         data that is not this handshake's) | replay (signature taken from another handshake of the same peer) |
         wrongkey (signature by a key that is not the certificate's);  side c|s = the SIGNING peer
         kt=wrongkey  (RSA key transport: the server does not hold the certificate's private key)
+        omit=cv:<side>      the side c|s sends its Certificate but NO CertificateVerify; everything else is genuine: the message is
+                            left out of the sender's transcript hash (so its Finished is the one of a peer that never wrote it), the
+                            record is taken off the wire and (TLS 1.3) the sender's record sequence number is not advanced for it
+        omit=skesig:s       TLS <= 1.2 server sends ServerKeyExchange WITHOUT the signature (params only), hashed as sent
+        preset=emptycert    TLS 1.3 client is told it sent an empty Certificate (tls13SentEmptyCertificate) although it sends a real one:
+                            the honest encoder then skips CertificateVerify by itself (no wrapper involved)
         drop=<dir>:<k> (the k-th record, 0-based, sent in direction c2s|s2c is removed from the wire)
         result:  new=<rc> c=<done>,<err>,<hs>,<cbcalls>:<last alert>,<anon> s=... val=<c calls>:<s calls> sign=<c>:<s>
                  v=<verdict the client's validator gave>;<server's>   verdict = rc/authStatus:authFailFlags/... leaf first
@@ -178,6 +184,75 @@ int32_t __wrap_chooseSigAlg(psX509Cert_t *cert, psPubKey_t *privKey, uint16_t pe
     return __real_chooseSigAlg(cert, privKey, peerSigAlgs);
 }
 
+/* ---------------------------------------------------------------- a peer that OMITS its proof of possession */
+static struct { int mode, side, have_mark, hashskips, dropped; unsigned char mark[16]; } g_omit;   /* mode 1 cv, 2 skesig */
+int32_t __real_sslUpdateHSHash(ssl_t *ssl, const unsigned char *in, psSize_t len);
+int32_t __wrap_sslUpdateHSHash(ssl_t *ssl, const unsigned char *in, psSize_t len)
+{
+    int side = (ssl == g_s.ssl) ? 1 : 0;
+    if (g_omit.mode && side == g_omit.side && len >= 4 && (ssl == g_s.ssl || ssl == g_c.ssl)) {
+        int receiving_cv = ACTV_VER(ssl, v_tls_1_3_any) && ssl->hsState == SSL_HS_TLS_1_3_WAIT_CV;
+        if (g_omit.mode == 1 && in[0] == SSL_HS_CERTIFICATE_VERIFY && !receiving_cv) { g_omit.hashskips++; return PS_SUCCESS; }
+        if (g_omit.mode == 2 && in[0] == SSL_HS_SERVER_KEY_EXCHANGE && len > 8 && in[4] == 3 && (size_t) (8 + in[7]) < len) {
+            unsigned char tmp[600]; size_t pl = 4 + (size_t) in[7];           /* curve_type, named_curve, point */
+            if (4 + pl <= sizeof tmp) {
+                tmp[0] = in[0]; tmp[1] = 0; tmp[2] = (unsigned char) (pl >> 8); tmp[3] = (unsigned char) pl; memcpy(tmp + 4, in + 4, pl);
+                g_omit.hashskips++; return __real_sslUpdateHSHash(ssl, tmp, (psSize_t) (4 + pl));
+            }
+        }
+    }
+    return __real_sslUpdateHSHash(ssl, in, len);
+}
+int32_t __real_tls13TranscriptHashUpdate(ssl_t *ssl, const unsigned char *in, psSize_t len);
+int32_t __wrap_tls13TranscriptHashUpdate(ssl_t *ssl, const unsigned char *in, psSize_t len)
+{
+    int side = (ssl == g_s.ssl) ? 1 : 0;
+    if (g_omit.mode == 1 && side == g_omit.side && len >= 4 && (ssl == g_s.ssl || ssl == g_c.ssl) &&
+        in[0] == SSL_HS_CERTIFICATE_VERIFY && ssl->hsState != SSL_HS_TLS_1_3_WAIT_CV) { g_omit.hashskips++; return MATRIXSSL_SUCCESS; }
+    return __real_tls13TranscriptHashUpdate(ssl, in, len);
+}
+int32_t __real_tls13EncryptMessage(ssl_t *ssl, flightEncode_t *msg, unsigned char **end);
+int32_t __wrap_tls13EncryptMessage(ssl_t *ssl, flightEncode_t *msg, unsigned char **end)
+{
+    int side = (ssl == g_s.ssl) ? 1 : 0;
+    if (g_omit.mode == 1 && side == g_omit.side && msg->hsMsg == SSL_HS_CERTIFICATE_VERIFY) {
+        unsigned char seq[8]; memcpy(seq, ssl->sec.seq, 8);
+        int32_t rc = __real_tls13EncryptMessage(ssl, msg, end);
+        memcpy(ssl->sec.seq, seq, 8);                    /* the record will never be sent: the next one takes its number */
+        memcpy(g_omit.mark, msg->start, sizeof g_omit.mark); g_omit.have_mark = 1;
+        return rc;
+    }
+    return __real_tls13EncryptMessage(ssl, msg, end);
+}
+/* wire side of the omission: called for the head record of a queue before it is delivered; 1 = record removed */
+static int omit_wire(int dir)
+{
+    queue_t *q = dir ? &g_s2c : &g_c2s; size_t l = q_reclen(q); unsigned char *p = q->b;
+    if (!g_omit.mode || dir != g_omit.side || l < 9) return 0;
+    int sealed = q->m[q->mh % MQ].sealed;
+    if (g_omit.mode == 1) {
+        int hit = (g_omit.have_mark && l >= 5 + sizeof g_omit.mark && !memcmp(p + 5, g_omit.mark, sizeof g_omit.mark))     /* TLS 1.3 */
+                  || (p[0] == 22 && !sealed && p[5] == SSL_HS_CERTIFICATE_VERIFY);                                            /* TLS <= 1.2 */
+        if (hit) { q_pop(q, l); q_meta_pop(q); g_omit.dropped++; return 1; }
+    }
+    if (g_omit.mode == 2 && p[0] == 22 && !sealed) {
+        size_t o = 5;
+        while (o + 4 <= l) {
+            size_t ml = ((size_t) p[o + 1] << 16) | ((size_t) p[o + 2] << 8) | p[o + 3];
+            if (o + 4 + ml > l) break;
+            if (p[o] == SSL_HS_SERVER_KEY_EXCHANGE && ml > 4 && p[o + 4] == 3 && 4 + (size_t) p[o + 7] < ml) {
+                size_t pl = 4 + (size_t) p[o + 7], cut = ml - pl;
+                memmove(p + o + 4 + pl, p + o + 4 + ml, q->len - (o + 4 + ml)); q->len -= cut;
+                p[o + 1] = 0; p[o + 2] = (unsigned char) (pl >> 8); p[o + 3] = (unsigned char) pl;
+                size_t rl = l - 5 - cut; p[3] = (unsigned char) (rl >> 8); p[4] = (unsigned char) rl;
+                g_omit.dropped++; return 0;
+            }
+            o += 4 + ml;
+        }
+    }
+    return 0;
+}
+
 static int g_kt_mode;   /* 1: server decrypts the premaster with a key that is not the certificate's */
 int32_t __real_psRsaDecryptPriv(psPool_t *pool, psRsaKey_t *key, unsigned char *in, psSize_t inlen, unsigned char *out, psSize_t outlen, void *data);
 int32_t __wrap_psRsaDecryptPriv(psPool_t *pool, psRsaKey_t *key, unsigned char *in, psSize_t inlen, unsigned char *out, psSize_t outlen, void *data)
@@ -288,7 +363,7 @@ static int pump_drop(int dir, int k)
             queue_t *q = d ? &g_s2c : &g_c2s;
             while (q_reclen(q)) {
                 if (d == dir && seen[d] == k) { size_t l = q_reclen(q); q_pop(q, l); q_meta_pop(q); }
-                else deliver_one(d, 0);
+                else if (!omit_wire(d)) deliver_one(d, 0);
                 seen[d]++; n++; moved = 1;
             }
         }
@@ -311,7 +386,8 @@ static void parse_suites(acfg_t *c, char *v) { while (*v && c->nsuites < 8) { c-
 static void do_live(char **a, int n)
 {
     acfg_t c; memset(&c, 0, sizeof c); c.ver = 12; c.cca = 1; c.sca = 1; c.seed = 1; c.cid = -1;
-    int dropdir = -1, dropk = 0; uint16_t rw[16]; int nrw = 0;
+    int dropdir = -1, dropk = 0; uint16_t rw[16]; int nrw = 0; int preset_empty = 0;
+    memset(&g_omit, 0, sizeof g_omit);
     memset(&g_pop, 0, sizeof g_pop); g_kt_mode = 0; g_sub.active = 0; memset(g_acb, 0, sizeof g_acb); g_force_hash = 0; g_forced = 0;
     for (int i = 0; i < n; i++) {
         char *eq = strchr(a[i], '='); if (!eq) continue; *eq = 0; char *v = eq + 1;
@@ -340,6 +416,8 @@ static void do_live(char **a, int n)
         else if (!strcmp(a[i], "forcehash")) { char *col = strchr(v, ':'); g_force_hash = atoi(v); g_force_side = (col && col[1] == 's') ? 1 : 0; }
         else if (!strcmp(a[i], "rewrite_sa")) { while (*v && nrw < 16) { rw[nrw++] = (uint16_t) strtol(v, &v, 16); if (*v == ',') v++; } }
         else if (!strcmp(a[i], "kt")) g_kt_mode = !strcmp(v, "wrongkey");
+        else if (!strcmp(a[i], "omit")) { char *col = strchr(v, ':'); if (col) { *col = 0; g_omit.side = col[1] == 's'; } g_omit.mode = !strcmp(v, "cv") ? 1 : !strcmp(v, "skesig") ? 2 : 0; }
+        else if (!strcmp(a[i], "preset")) preset_empty = !strcmp(v, "emptycert");
         else if (!strcmp(a[i], "drop")) { dropdir = (v[0] == 's') ? 1 : 0; char *col = strchr(v, ':'); dropk = col ? atoi(col + 1) : 0; }
         else if (!strcmp(a[i], "pop")) {
             char *col = strchr(v, ':'); if (col) { *col = 0; g_pop.side = col[1] == 's'; }
@@ -358,11 +436,14 @@ static void do_live(char **a, int n)
     if (rc == 0) {
         g_quiet = 1; flush_out(&g_c); g_quiet = 0;
         if (nrw) printf(" rewrite=%d", rewrite_sigalgs(rw, nrw));
-        if (dropdir >= 0) pump_drop(dropdir, dropk); else pump(1);
+        if (preset_empty) g_c.ssl->tls13SentEmptyCertificate = PS_TRUE;
+        pump_drop(dropdir, dropk);
     }
     side_line("c", &g_c, 0); side_line("s", &g_s, 1);
     printf(" val=%d:%d sign=%d:%d v=%s;%s", g_valcalls[0], g_valcalls[1], g_signcalls[0], g_signcalls[1], g_verdict[0], g_verdict[1]);
     if (g_force_hash) printf(" forced=%d", g_forced);
+    if (g_omit.mode) printf(" omit=%d:%d", g_omit.hashskips, g_omit.dropped);
+    memset(&g_omit, 0, sizeof g_omit);
     g_force_hash = 0; g_pin_year = 2020; memset(&g_pop, 0, sizeof g_pop); g_kt_mode = 0;
 }
 
@@ -370,7 +451,7 @@ static void do_verdict(char **a, int n)
 {
     if (n < 8) { printf("X:args"); return; }
     acfg_t c; memset(&c, 0, sizeof c); c.seed = 1; c.sca = 1; c.cca = 1;
-    memset(&g_pop, 0, sizeof g_pop); g_kt_mode = 0; memset(g_acb, 0, sizeof g_acb); memset(&g_sub, 0, sizeof g_sub);
+    memset(&g_pop, 0, sizeof g_pop); g_kt_mode = 0; memset(g_acb, 0, sizeof g_acb); memset(&g_sub, 0, sizeof g_sub); memset(&g_omit, 0, sizeof g_omit);
     c.ver = atoi(a[0]); int role = a[1][0] == 's';
     int cbmode = atoi(a[2]), cbarg = atoi(a[3]), ca = atoi(a[4]);
     c.depth = atoi(a[5]); g_sub.rc = atoi(a[6]); g_sub.n = atoi(a[7]);
